@@ -113,3 +113,51 @@ def run(chk, failed):
         "Maxlag identity among tied partitions depends on Go map iteration order: the model is given the order observed in the full view",
         "float32 completeness via Flocq binary32 (bit patterns compared)",
     ]
+
+
+def replay(path):
+    import json
+    import framework
+    obj = json.load(open(path))
+    case = obj.get("case")
+    if not case:
+        print("replay file has no case (broken: %s)" % obj.get("broken"))
+        return 2
+    chk = framework.Check("C04", "quick", int(obj.get("seed", 1)))
+    C.build_coq()
+    impl = chk.run_impl("eval", "TestVerifProbeEval", [case], name="replay")
+    model = chk.run_model("eval", [case], name="replay")
+    pa = impl[0].split(" || ")
+    allg, filtg = parse_group(pa[0]), parse_group(pa[1])
+    f = case.split()
+    # rebuild the python-side group only as far as the oracle needs it (partition count)
+    ntop = int(f[4])
+    print("case:  " + case)
+    print("impl:  " + impl[0])
+    print("model: " + model[0])
+    errs = []
+    try:
+        gcase = {"topics": _topics_of(case)}
+        errs = oracle(gcase, allg, filtg)
+    except Exception as e:   # pragma: no cover
+        errs = ["could not evaluate the oracle: %r" % e]
+    if pa[2].split()[1] != "1":
+        errs.append("serving the filtered view changed what a later full request sees")
+    print("oracle: " + ("; ".join(errs) if errs else "holds"))
+    return 1 if errs or " || ".join(pa[:2]) != model[0] else 0
+
+
+def _topics_of(case):
+    """[(topic, [None]*nparts)] from a group case line (enough for the oracle's partition count)."""
+    f = case.split()
+    i = 5
+    topics = []
+    for _ in range(int(f[4])):
+        t, nparts = int(f[i]), int(f[i + 1])
+        i += 2
+        for _ in range(nparts):
+            i += 3                      # owner client curlag
+            nb = int(f[i]); i += 1 + nb
+            no = int(f[i]); i += 1 + 6 * no
+        topics.append((t, [None] * nparts))
+    return topics
